@@ -103,6 +103,11 @@ def gen(seed: int, tier: str) -> dict[str, Any]:
         ops.append({"t": tr_, "op": "reconnect", "id": 300})
         for j in range(rng.choice([1, 2])):
             ops.append({"t": round(tr_ + 4.5 + rng.uniform(0.0, 3.0), 6), "op": "send", "id": 301 + j})
+    shadow = rng.random() < 0.2
+    if shadow:
+        for j in range(rng.choice([1, 2])):
+            ops.append({"t": round(rng.uniform(4.0, 4.0 + horizon), 6), "op": "notify_other_group", "id": 500 + j,
+                        "off": rng.choice([10 ** 6, 3_600_000, 10 ** 9])})
     ops.sort(key=lambda o: o["t"])
     return {"seed": seed, "tier": "S" if sync not in ("dup", "one+stale") else "P",
             "config": {"sync": sync, "latency_ms": rng.choice([1000, 1000, 2000, 500]),
@@ -110,7 +115,7 @@ def gen(seed: int, tier: str) -> dict[str, Any]:
                        # (also groups whose timer has run into the upper half of its 48-bit range)
                        "peer_base": rng.choice([5_000, 1_000_000, 2_000_000, 10 ** 9, 2 ** 47 - 10 ** 6, 2 ** 47 + 10 ** 6,
                                                 0xE000_0000_0000, 2 ** 48 - 10 ** 10]) if sync != "one+stale" else 10 ** 9,
-                       "stale_ahead": rng.choice([1, 5_000, 3_600_000])},
+                       "stale_ahead": rng.choice([1, 5_000, 3_600_000]), "shadow": shadow},
             "ops": ops}
 
 
@@ -137,7 +142,20 @@ def run(plan: dict[str, Any]) -> dict[str, Any]:
     def peer_timer() -> int:
         return cfg["peer_base"] + int((loop.time() - t_start) * 1000)
 
+    key2 = random.Random(plan["seed"] ^ 0x5AD0).randbytes(16)
+
     async def main():
+        routing2 = None
+        if cfg.get("shadow"):
+            # a second secure routing connection of the same process: another backbone (other key) on the same multicast
+            # address, joined first - it sees every datagram before the judged connection does
+            routing2 = SecureRouting(XKNX(), IndividualAddress("1.1.9"), lambda raw: None, "10.0.0.9", backbone_key=key2,
+                                     latency_ms=cfg["latency_ms"])
+            try:
+                await routing2.connect()
+                R.extra_faults["second_secure_group_with_another_key_in_the_same_process"] += 1
+            except CommunicationError:
+                routing2 = None
         xknx = XKNX()
         routing = SecureRouting(xknx, IndividualAddress("1.1.8"), lambda raw: None, net.local_ip, backbone_key=key,
                                 latency_ms=cfg["latency_ms"])
@@ -256,6 +274,7 @@ def run(plan: dict[str, Any]) -> dict[str, Any]:
             info["connect"] = "failed"
             return
         info["connect_t"] = loop.time() - t0
+        info["t0"] = t0
         info["timekeeper_after_sync"] = timer.timekeeper
         tasks = []
 
@@ -334,6 +353,11 @@ def run(plan: dict[str, Any]) -> dict[str, Any]:
                              + rng.randbytes(2) + rng.randbytes(op["n"]) + rng.randbytes(16))
                 R.extra_faults[k] += 1
                 peers[0].sendto(fr, MCAST, lat=lat, nofault=True)
+            elif k == "notify_other_group":
+                # authentic for the other backbone of this process, far ahead: nothing for the judged connection
+                value = min(2 ** 48 - 1, max(1, local_guess + op["off"]))
+                R.extra_faults[k] += 1
+                peers[0].sendto(C.timer_notify(key2, value, b"\x00\xfa\x12\x34\x56\x79", rng.randbytes(2)), MCAST, lat=lat, nofault=True)
             elif k in ("notify", "notify_forged"):
                 value = min(2 ** 48 - 1, max(1, local_guess + op["off"]))
                 fr = C.timer_notify(key, value, b"\x00\xfa\x12\x34\x56\x78", rng.randbytes(2))
@@ -370,6 +394,8 @@ def run(plan: dict[str, Any]) -> dict[str, Any]:
         await asyncio.sleep(max([o["t"] for o in plan["ops"]], default=4.0) + 3.0)
         await asyncio.gather(*tasks, return_exceptions=True)
         await routing.disconnect()
+        if routing2 is not None:
+            await routing2.disconnect()
         await asyncio.sleep(0.1)
 
     R.execute(main())
@@ -431,11 +457,11 @@ def run(plan: dict[str, Any]) -> dict[str, Any]:
     wr = [(t, v) for (t, v, k) in outs if k == "wrapper"]
     for (t1, v1), (t2, v2) in zip(wr, wr[1:]):
         if v2 < v1:
-            early_first = t1 - t_start <= info.get("connect_t", 0.0) + 1e-9
+            early_first = t1 - info.get("t0", t_start) <= info.get("connect_t", 0.0) + 1e-9
             R.violate("C30.timer-monotone", "outgoing-timer-decreased" + (":first-sent-before-synchronisation-finished" if early_first else ""),
                       f"{v1} at {t1:.3f} then {v2} at {t2:.3f}")
-    post = [(t, v) for (t, v, k) in outs if t - t_start > info.get("connect_t", 0.0) + 1e-9]
-    pre = [(t, v) for (t, v, k) in outs if t - t_start <= info.get("connect_t", 0.0) + 1e-9]
+    post = [(t, v) for (t, v, k) in outs if t - info.get("t0", t_start) > info.get("connect_t", 0.0) + 1e-9]
+    pre = [(t, v) for (t, v, k) in outs if t - info.get("t0", t_start) <= info.get("connect_t", 0.0) + 1e-9]
     if pre:
         post = [pre[-1]] + post      # the client's own synchronisation request is the baseline for what follows
     for (t1, v1), (t2, v2) in zip(post, post[1:]):
